@@ -22,7 +22,7 @@ RULE = ("the nine shipped tables and random custom tables (3-40 strictly ascendi
         "additionally 40 points per interval against the linear interpolant and a golden snapshot before/after library "
         "use; a case = (table, BC); non-trivial for every table (custom tables are all distinct)")
 MUST_OBSERVE = ["tables_checked", "shipped_tables_checked", "custom_tables_checked", "node_queries", "midpoint_side_queries",
-                "beyond_table_queries", "first_interval_queries", "tables_not_starting_at_mach0", "below_table_queries", "linear_band_points", "golden_comparisons",
+                "beyond_table_queries", "first_interval_queries", "tables_not_starting_at_mach0", "below_table_queries", "tables_tuned_in_place_between_setups", "linear_band_points", "golden_comparisons",
                 "constant_checks"]
 ASSUMPTIONS = ["golden snapshot vf/golden/drag_tables.json (taken from the pinned commit; spot values agree with the published "
                "G1/G7) is the trusted statement of 'the published tables'",
@@ -117,6 +117,20 @@ def check_table(ctx, case, thorough):
     shot = build.shot(spec)
     calc = Calculator()
     tc = calc._calc  # pylint: disable=protected-access
+    if case.get("tuned_in_place"):
+        # the same calculator has already set this very DragModel object up while its table and BC held other values
+        # (a table being tuned in place between shots); it must use the table as it is now
+        dm = shot.ammo.dm
+        keep = [(p.Mach, p.CD) for p in dm.drag_table]
+        for p in dm.drag_table:
+            p.CD *= 1.0 + 0.3 * math.sin(7 * p.Mach + 1.0) ** 2
+        dm.BC = case["bc"] * 1.5
+        tc._init_trajectory(shot)  # pylint: disable=protected-access
+        tc.drag_by_mach(1.1)
+        for p, (m, c) in zip(dm.drag_table, keep):
+            p.Mach, p.CD = m, c
+        dm.BC = case["bc"]
+        ctx.count("tables_tuned_in_place_between_setups")
     tc._init_trajectory(shot)  # the call the solver itself makes  pylint: disable=protected-access
     bc = case["bc"]
     ctx.count("tables_checked")
@@ -218,7 +232,7 @@ def run(ctx):
         check_golden(ctx, "at import")
     for n in ctx.my(TABLE_NAMES):
         for bc in ([0.05, 0.381, 1.2] if not thorough else [0.05, 0.1, 0.223, 0.381, 0.7, 1.0, 1.2]):
-            check_table(ctx, {"table": n, "bc": bc}, thorough)
+            check_table(ctx, {"table": n, "bc": bc, "tuned_in_place": bc != 0.381}, thorough)
     if ctx.shard == 0:
         battery(ctx)
         check_golden(ctx, "after DragModel / DragModelMultiBC / zero / fire calls")
@@ -226,11 +240,12 @@ def run(ctx):
     for _ in range(ctx.share(total)):
         if not ctx.time_left():
             break
-        check_table(ctx, {"table": gen.custom_table(ctx.rng), "bc": round(ctx.rng.uniform(0.05, 1.2), 4)}, thorough)
+        check_table(ctx, {"table": gen.custom_table(ctx.rng), "bc": round(ctx.rng.uniform(0.05, 1.2), 4),
+                          "tuned_in_place": ctx.rng.random() < 0.5}, thorough)
 
 
 def replay(ctx, case):
     if "stage" in case:
         check_golden(ctx, case["stage"])
     else:
-        check_table(ctx, {"table": case["table"], "bc": case["bc"]}, True)
+        check_table(ctx, {"table": case["table"], "bc": case["bc"], "tuned_in_place": case.get("tuned_in_place")}, True)
